@@ -66,6 +66,29 @@ func Tokens(src string, maskWriteString bool) ([]Tok, error) {
 		kept = append(kept, t)
 	}
 	out = kept
+	// a grouped import declaration means the same as one declaration per import:
+	// import ( "a"; x "b" )  ==  import "a"; import x "b"
+	var flat []Tok
+	for i := 0; i < len(out); i++ {
+		if out[i].Kind == token.IMPORT && i+1 < len(out) && out[i+1].Kind == token.LPAREN {
+			j := i + 2
+			for j < len(out) && out[j].Kind != token.RPAREN {
+				flat = append(flat, Tok{Kind: token.IMPORT})
+				for j < len(out) && out[j].Kind != token.STRING && out[j].Kind != token.RPAREN {
+					flat = append(flat, out[j]) // the import's name: an identifier, "." or "_"
+					j++
+				}
+				if j < len(out) && out[j].Kind == token.STRING {
+					flat = append(flat, out[j])
+					j++
+				}
+			}
+			i = j // the closing parenthesis
+			continue
+		}
+		flat = append(flat, out[i])
+	}
+	out = flat
 	// mask Line: N / Col: N inside templ.Error{...}
 	for i := 0; i+2 < len(out); i++ {
 		if out[i].Kind == token.IDENT && (out[i].Lit == "Line" || out[i].Lit == "Col") && out[i+1].Kind == token.COLON && out[i+2].Kind == token.INT {
